@@ -84,7 +84,7 @@ FlipEffects(f, s, b, fld) ==
          [] fld = "b.check" -> {Eff("check", FALSE, UB(f, s, b, [K EXCEPT !.chk = FALSE]))}
          [] fld = "i.indicator" -> {Eff("nonzero", TRUE, f)}
          [] fld = "i.count" -> {Eff("value", FALSE, US(f, s, [T EXCEPT !.icount = T.icount + 1, !.icrc = FALSE,
-                                                                      !.irecs = Append(T.irecs, [u |-> 24, n |-> 0])])),
+                                                                      !.irecs = Append(T.irecs, Rec(24, 0))])),
                                 Eff("vli", TRUE, f)}
          [] fld = "i.records" -> {Eff("value", FALSE, US(f, s, [T EXCEPT !.irecs[1].u = T.irecs[1].u + 1, !.icrc = FALSE])),
                                   Eff("value", FALSE, US(f, s, [T EXCEPT !.irecs[Len(T.irecs)].n = T.irecs[Len(T.irecs)].n + 1, !.icrc = FALSE])),
@@ -109,18 +109,27 @@ OverEffects(f, s, b, fld) ==
               \cup {IF Len(T.blocks) = 0 THEN Eff("check_other_size", FALSE, US(f, s, [T EXCEPT !.check = c]))
                                          ELSE Eff("check_other_size", TRUE, f) : c \in OtherSizeChecks(T.check)}
          [] fld = "bh.flags" -> {Eff("reserved", FALSE, UB(f, s, b, [K EXCEPT !.resv = TRUE]))}
+         \* "nonmin": the SAME value in a longer (malformed) encoding; the extra byte is taken from the Header Padding
          [] fld = "bh.cs" -> {Eff("value", FALSE, UB(f, s, b, [K EXCEPT !.cs.v = K.cs.v + 1]))}
+                             \cup (IF K.hpad >= 1 THEN {Eff("nonmin", FALSE, UB(f, s, b, [K EXCEPT !.cs.vli = FALSE, !.cs.vc = "nonmin", !.hpad = K.hpad - 1]))} ELSE {})
          [] fld = "bh.us" -> {Eff("value", FALSE, UB(f, s, b, [K EXCEPT !.us.v = K.us.v + 1]))}
-         [] fld = "bh.filters" -> {Eff("unknown_id", FALSE, UB(f, s, b, [K EXCEPT !.filters[1] = [id |-> "unknown", plen |-> K.filters[1].plen, pok |-> TRUE]])),
+                             \cup (IF K.hpad >= 1 THEN {Eff("nonmin", FALSE, UB(f, s, b, [K EXCEPT !.us.vli = FALSE, !.us.vc = "nonmin", !.hpad = K.hpad - 1]))} ELSE {})
+         [] fld = "bh.filters" -> {Eff("unknown_id", FALSE, UB(f, s, b, [K EXCEPT !.filters[1] = FX("unknown", K.filters[1].plen, TRUE)])),
                                    Eff("benign", FALSE, f)}       \* e.g. another valid LZMA2 dictionary size: still the same data
          [] fld = "bh.padding" -> {Eff("nonzero", FALSE, UB(f, s, b, [K EXCEPT !.hpadz = FALSE]))}
-         [] fld = "i.count" -> {Eff("value", FALSE, US(f, s, [T EXCEPT !.icount = T.icount + 1, !.irecs = Append(T.irecs, [u |-> 24, n |-> 0])]))}
-         [] fld = "i.records" -> {Eff("value", FALSE, US(f, s, [T EXCEPT !.irecs[1].u = T.irecs[1].u + 4])),
+         \* Index VLIs: "nonmin" keeps the value, the padding and the Backward Size of the minimal Index (one byte more in the file)
+         [] fld = "i.count" -> {Eff("value", FALSE, US(f, s, [T EXCEPT !.icount = T.icount + 1, !.irecs = Append(T.irecs, Rec(24, 0))])),
+                                Eff("nonmin", FALSE, US(f, s, [T EXCEPT !.ivli = FALSE, !.ivpos = 1, !.ivcls = "nonmin"]))}
+         [] fld = "i.records" -> {Eff("nonmin", FALSE, US(f, s, [T EXCEPT !.ivli = FALSE, !.ivpos = 2, !.ivcls = "nonmin"])),
+                                  Eff("nonmin", FALSE, US(f, s, [T EXCEPT !.ivli = FALSE, !.ivpos = 2 * Len(T.irecs) + 1, !.ivcls = "nonmin"])),
+                                  Eff("value", FALSE, US(f, s, [T EXCEPT !.irecs[1].u = T.irecs[1].u + 4])),
                                   Eff("value", FALSE, US(f, s, [T EXCEPT !.irecs[Len(T.irecs)].n = T.irecs[Len(T.irecs)].n + 1]))}
                                  \cup (IF Len(T.irecs) >= 2 /\ T.irecs[1] # T.irecs[2]
                                        THEN {Eff("swap", FALSE, US(f, s, [T EXCEPT !.irecs[1] = T.irecs[2], !.irecs[2] = T.irecs[1]]))} ELSE {})
          [] fld = "i.padding" -> {Eff("nonzero", FALSE, US(f, s, [T EXCEPT !.ipadz = FALSE]))}
+         \* "wrap": stored Backward Size + k * 2^30 - equal to the true size in 32-bit arithmetic on (stored + 1) * 4
          [] fld = "f.backward_size" -> {Eff("value", FALSE, US(f, s, [T EXCEPT !.fbs = T.fbs + 4]))}
+                                       \cup {Eff("wrap", FALSE, US(f, s, [T EXCEPT !.fbs = T.fbs + BigStandIn, !.fbb = k])) : k \in {"k1", "k2", "k3"}}
          [] fld = "f.flags" -> {Eff("reserved", FALSE, US(f, s, [T EXCEPT !.fvers = FALSE]))}
                                \cup {Eff("check", FALSE, US(f, s, [T EXCEPT !.fcheck = c])) : c \in {x \in {0, 1, 2, 4, 10, 15} : x # T.fcheck}}
          [] OTHER -> {}
@@ -136,7 +145,7 @@ Faults(f) ==
     {[kind |-> "none", s |-> 0, b |-> 0, f |-> "", cls |-> "", frame |-> FALSE, file |-> f, limit |-> FileReal(f)]}
     \cup UNION {{[kind |-> "flip", s |-> Fs[k].s, b |-> Fs[k].b, f |-> Fs[k].f, cls |-> e.cls, frame |-> e.frame, file |-> e.file, limit |-> FileReal(f)]
                    : e \in FlipEffects(f, Fs[k].s, Fs[k].b, Fs[k].f)} : k \in 1..Len(Fs)}
-    \cup UNION {{[kind |-> "over", s |-> Fs[k].s, b |-> Fs[k].b, f |-> Fs[k].f, cls |-> e.cls, frame |-> e.frame, file |-> e.file, limit |-> FileReal(f)]
+    \cup UNION {{[kind |-> "over", s |-> Fs[k].s, b |-> Fs[k].b, f |-> Fs[k].f, cls |-> e.cls, frame |-> e.frame, file |-> e.file, limit |-> FileReal(e.file)]
                    : e \in OverEffects(f, Fs[k].s, Fs[k].b, Fs[k].f)} : k \in {j \in 1..Len(Fs) : Fs[j].f \in CrcProtected}}
     \* one byte inserted / deleted: the framing is lost from that field on; in Stream Padding a zero byte more or less
     \cup UNION {{[kind |-> kd, s |-> Fs[k].s, b |-> Fs[k].b, f |-> Fs[k].f, cls |-> "shift", frame |-> TRUE, file |-> f, limit |-> FileReal(f)]
